@@ -8,6 +8,8 @@
 (*               evaluated INDEPENDENTLY by the harness on the wire atoms  *)
 (*   truth     - whether the statement is true for the hidden values       *)
 (*   token_ok  - PS axiom A2 instance: the token proof is on a signed state*)
+(*   digits_ok - the same for every digit proof of the range constraints   *)
+(*   resp_ok   - the responses are those of the committed values           *)
 (*   clusters  - the strategy abstracted into Z_P instances of the cluster *)
 (*               shapes, with the late-chosen fields and the OBSERVED      *)
 (*               hashed sets                                               *)
@@ -46,7 +48,12 @@ ClusterAccept(cl) ==
      GAnswerable(GP, GU, mem, ShapeDigits(cl.shape), ShapeCons(cl.shape, cl.neg), pubs, cl.m, cl.t, ss,
                  lateRev, lateT, lateC) = 0..(GP - 1)
 
-ModelAccept(e) == e.token_ok /\ \A i \in 1..Len(e.clusters) : ClusterAccept(e.clusters[i])
+(* resp_ok: every response is the one determined by the committed values and commitment scalars    *)
+(* (or was solved from a late-chosen T / C): in the game a challenge is answerable only with that    *)
+(* response, any other one fails the Schnorr equation of its sub-proof (Schnorr.tla PerturbationRejects). *)
+(* digits_ok: PS axiom A2 instances for the range key - every digit proof is built on a signature    *)
+(* valid under the range key on that digit (only the digits 0..u-1 were ever signed).                *)
+ModelAccept(e) == e.token_ok /\ e.resp_ok /\ e.digits_ok /\ \A i \in 1..Len(e.clusters) : ClusterAccept(e.clusters[i])
 
 TGame ==
   /\ IsEv("game")
